@@ -35,15 +35,21 @@ COVERAGE_TARGETS = [f'{op}:ok:{st}' for st in ('list', 'dict') for op in
 
 
 def _o(v):
-    """model object -> Python object: 0 stands for None; object k for the integer 1000*k, handed over as a
+    """model object -> Python object: 0 stands for None; object k > 0 for the integer 1000*k, handed over as a
     *fresh* Python int every time (outside CPython's small-int cache): equal to but not identical with the
-    ones handed over before - the model's objects are compared with `==`, as `list.index/remove/in` do"""
-    return None if v == 0 else int(str(1000 * v))
+    ones handed over before - the model's objects are compared with `==`, as `list.index/remove/in` do;
+    object -k for the *string* str(1000*k): a different object with the same `str` (a name collision)"""
+    if v == 0:
+        return None
+    return int(str(1000 * v)) if v > 0 else str(1000 * -v)
 
 
 def _i(v):
     if v is None:
         return 0
+    if isinstance(v, str):
+        assert v.isdigit() and int(v) % 1000 == 0, v
+        return -(int(v) // 1000)
     assert isinstance(v, int) and v % 1000 == 0, v
     return v // 1000
 
@@ -181,6 +187,9 @@ def _decls():
     yield 'Selector', {'objs': [0, 1], 'names': None, 'check_on_set': True}
     yield 'Selector', {'objs': [1, 2], 'names': None, 'check_on_set': False}
     yield 'Selector', {'objs': [1, 2], 'names': [['a', 1], ['b', 2]], 'check_on_set': False}
+    # two unique objects with the same str(): the integer 1000 and the string '1000'
+    yield 'Selector', {'objs': [1, -1, 2], 'names': None, 'check_on_set': True}
+    yield 'Selector', {'objs': [1, -1], 'names': [['a', 1], ['b', -1]], 'check_on_set': True}
 
 
 def _alphabet(style, pos):
@@ -229,7 +238,7 @@ def _random_case(rng):
     kind = rng.choice(['Selector', 'ListSelector'])
     style = rng.choice(['list', 'dict'])
     n = rng.randint(0, 4)
-    objs = rng.sample(range(0, 9), n)          # 0 = None
+    objs = rng.sample(range(0, 9) if rng.random() < 0.85 else range(-3, 6), n)          # 0 = None, -k = the string str(1000*k)
     keys = rng.sample(['a', 'b', 'c', 'd', 'e', 'f', 'g', ''], n)
     decl = {'objs': objs, 'names': [[k, v] for k, v in zip(keys, objs)] if style == 'dict' else None,
             'check_on_set': rng.random() < 0.8}
@@ -383,6 +392,22 @@ def classify(case, impl, fail):
     it was appended to the objects without a name (no duplicate, nothing else moved)"""
     import re
     why = str(fail.get('why', ''))
+    # the other recorded finding: a list-declared Selector (names computed with str()) holding two objects with
+    # the same str(): a view keyed by name lists one object fewer.  Only that shape: the failing observation's
+    # list holds such a pair, and the names in force before were computed, not given
+    if fail.get('kind') == 'counterexample' and isinstance(impl, dict) and 'steps' in impl:
+        md = re.match(r'(declaration|after step (\d+)|step (\d+))', why)
+        if md:
+            n = -1 if md.group(1) == 'declaration' else int(md.group(2) or md.group(3))
+            cur = impl['init'] if n < 0 else (impl['steps'][n] if n < len(impl['steps']) else None)
+            prev = impl['init'] if n <= 0 else impl['steps'][n - 1]
+            if cur is not None:
+                l = cur['list']
+                collide = any(a != 0 and -a in l for a in l)
+                computed = (not prev['names']) or n < 0
+                if collide and computed and len(set(l)) == len(l) and (
+                        'lists other objects than the list view' in why or 'objects/names inconsistent' in why):
+                    return 'str-collision-drops-object'
     m = re.match(r'after step (\d+) \(ParamVerif\.Selector\.Op\.assign', why)
     if fail.get('kind') != 'counterexample' or case['decl']['check_on_set'] or not m \
             or 'objects/names inconsistent' not in why or not (isinstance(impl, dict) and 'steps' in impl):
